@@ -25,7 +25,9 @@ def is_unqualified_table_expression(expression: exp.Expression) -> tuple[bool, b
         exp.Expression: The transformed expression.
     """
 
-    if not (node := expression.find(exp.Table)):
+    # a reference to a CTE defined by the statement isn't a table that needs a database or schema
+    ctes = {cte.alias for cte in expression.find_all(exp.CTE)}
+    if not (node := next((t for t in expression.find_all(exp.Table) if t.db or t.name not in ctes), None)):
         return False, False
 
     assert node.parent, f"No parent for table expression {node.sql()}"
